@@ -106,12 +106,14 @@ type idpWorld struct {
 	acsOf      map[string]string
 	lastAction string
 	acsVersion int
+	// the profile (e-mail, name, groups) each user is stored with now (absent: unknown, e.g. after a faulted PUT)
+	curProfile map[string]string
 }
 
 const idpRoot = "https://idp.example.com"
 
 func (c *Ctx) newIdpWorld() *idpWorld {
-	w := &idpWorld{c: c, store: &faultStore{inner: &samlidp.MemoryStore{}}, now: baseTime, sids: map[string]string{}, sps: map[string]*saml.ServiceProvider{}, stored: map[string]string{}, everPw: map[string]map[string]bool{}, curPw: map[string]*string{}, acsOf: map[string]string{}}
+	w := &idpWorld{c: c, store: &faultStore{inner: &samlidp.MemoryStore{}}, now: baseTime, sids: map[string]string{}, sps: map[string]*saml.ServiceProvider{}, stored: map[string]string{}, everPw: map[string]map[string]bool{}, curPw: map[string]*string{}, acsOf: map[string]string{}, curProfile: map[string]string{}}
 	w.setClock()
 	w.newServer()
 	return w
@@ -376,6 +378,11 @@ func (w *idpWorld) putUser(name, email, cn string, groups []string, pw *string, 
 		p := *pw
 		w.curPw[name] = &p
 	}
+	if strings.HasPrefix(res, "2") && len(faults) == 0 {
+		w.curProfile[name] = profileOf(email, cn, groups)
+	} else if len(faults) > 0 {
+		delete(w.curProfile, name)
+	}
 }
 
 // deleteUser: after a successful DELETE the account has no current password (a later PUT without one creates an account nobody can log in to)
@@ -532,6 +539,14 @@ func (w *idpWorld) sso(entity string, valid bool, user, pw string, hasCred bool,
 		payload, _ := url.PathUnescape(strings.SplitN(res[i+6:], "/", 2)[0])
 		if got := strings.SplitN(payload, "|", 2)[0]; got != user {
 			w.orc = append(w.orc, fmt.Sprintf("key=assertion-describes-other-user step %d: logging in as %q produced an assertion whose uid is %q", w.n, user, got))
+		}
+	}
+	// credentials presented are a login, whatever cookie comes along: the assertion describes the user as stored now
+	if i := strings.Index(res, "/saml:"); i >= 0 && hasCred && !w.faulted {
+		payload, _ := url.PathUnescape(strings.SplitN(res[i+6:], "/", 2)[0])
+		parts := strings.Split(payload, "|")
+		if want, ok := w.curProfile[user]; ok && len(parts) >= 2 && parts[0] == user && parts[1] != want {
+			w.orc = append(w.orc, fmt.Sprintf("key=assertion-describes-stale-user step %d: %q logged in with the current password and the assertion carries the profile %q, stored now: %q", w.n, user, parts[1], want))
 		}
 	}
 	return res
@@ -737,6 +752,26 @@ func (c *Ctx) genC19() {
 			w.putUser("alice", "alice@example.com", "Alice A", []string{"staff"}, nil, nil) // no password in the body: the stored one stays
 			w.login("alice", "pw-b", true, "", nil)
 			pwBudget -= 6
+		}
+		if h == 5 {
+			// a user logs in, is changed (groups, e-mail, password), and logs in again with the current password while the
+			// browser still sends the cookie of the earlier login: a login is a login — the assertion describes the user as stored now
+			first := w.login("alice", "pw-a", true, "", nil)
+			sid0 := ""
+			for sid, l := range w.sids {
+				if strings.HasSuffix(first, "/"+l) {
+					sid0 = sid
+				}
+			}
+			pb := "pw-b"
+			w.putUser("alice", "alice@new.example.com", "Alice Renamed", []string{"guests"}, &pb, nil)
+			w.login("alice", "pw-b", true, sid0, nil)
+			w.sso(entities[0], true, "alice", "pw-b", true, sid0, "rs", nil)
+			w.sso(entities[0], true, "alice", "pw-a", true, sid0, "rs", nil)
+			w.sso(entities[0], true, "", "", false, sid0, "rs", nil)
+			w.putUser("alice", "alice@newer.example.com", "Alice Again", nil, nil, nil)
+			w.sso(entities[0], true, "alice", "pw-b", true, sid0, "rs", nil)
+			pwBudget -= 5
 		}
 		if h == 4 {
 			// a store that fails at each single step of a request that arrives with a session cookie (and with a forged one):
